@@ -50,6 +50,8 @@ def _sim_spec(draw, tier):
     mask = st.one_of(st.integers(0, m), st.sampled_from([0, m, 1, m >> 1]),
                      st.integers(0, max(n - 1, 0)).map(lambda k: 1 << k))
     ncyc = draw(st.integers(4, 40 if tier == "quick" else 100)) if n <= 10 else draw(st.integers(8, 24))
+    if n <= 10 and draw(st.integers(0, 19)) == 0:
+        ncyc = draw(st.integers(300, 600))     # occasionally a long run
     cycles = draw(st.lists(st.tuples(mask, mask, mask).map(list), min_size=ncyc, max_size=ncyc))
     return {"kind": "sim", "modes": modes, "order": order, "trigger": draw(st.sampled_from(MODES)),
             "cycles": cycles,
